@@ -401,9 +401,23 @@ def boundary(res, scratch):
         reads[q] = read
         recs.append(rgfa.Rec(q, len(read), 0, len(read), "+", ">b1>b2", len(big) + 4, p0, p0 + L, L - 300, L + 150, 60, ["tp:A:P", f"cg:Z:{cg}", "zz:Z:t_4"]))
         info.append((2, False))
+    # medium reads of equal length with a compensating insertion + deletion a few bases apart (the input CIGAR carries
+    # the two gaps, cost 16; an ungapped reading of the same pair costs more)
+    for L in (200, 600, 1000, 5000):
+        for dist in (3, 9, 50):
+            p0, a = 300, L // 2
+            path_slice = big[p0 : p0 + L]
+            read = path_slice[:a] + "T" + path_slice[a : a + dist] + path_slice[a + dist + 1 :]
+            if len(read) != L:
+                continue
+            cg = f"{a}=1I{dist}=1D{L - a - dist - 1}="
+            q = f"comp{L}_{dist}"
+            reads[q] = read
+            recs.append(rgfa.Rec(q, L, 0, L, "+", ">b1>b2", len(big) + 4, p0, p0 + L, L - 1, L + 1, 60, ["tp:A:P", f"cg:Z:{cg}", "zz:Z:t_5"]))
+            info.append((2, False))
     fasta = "".join(f">{q}\n{s_}\n" for q, s_ in reads.items())
     out, lines = run_realign_file(scratch, g.text(), fasta, recs, tag="big")
-    judge_records(res, g, reads, recs, out, lines, info)
+    judge_records(res, g, reads, recs, out, lines, info, scratch)
     res.count("boundary_records", len(recs))
 
 
